@@ -20,26 +20,26 @@ DecFn == [i \in 0..1024 |-> DecayRef(i)]
 PhaseName(n) == CASE n = 0 -> "rest" [] n = 1 -> "attack" [] n = 2 -> "decay" [] n = 3 -> "sustain"
                   [] n = 4 -> "release"
 
-Advance(tags) == /\ l' = l + 1 /\ dead' = (dead \/ tags # {}) /\ Flag(l, IF dead THEN {} ELSE tags)
+Advance(tags) == /\ l' = l + 1 /\ dead' = dead \cup PropsOf(tags) /\ Flag(l, LiveTags(tags, dead))
 
 TMeta == e.op = "meta" /\ UNCHANGED <<voiceAll, dead>> /\ l' = l + 1
 TNew == /\ e.op = "new" /\ New(e.c)
         /\ acc' = 0 /\ inc' = 0 /\ rolled' = FALSE /\ lastAcc' = 0 /\ phase' = "rest" /\ lvlOn' = 0 /\ lvlOff' = 0
         /\ val' = 0 /\ S' = Q /\ step' = [a |-> M, d |-> M, r |-> M]
-        /\ pc' = "poll" /\ kind' = "svc" /\ l' = l + 1 /\ dead' = FALSE
+        /\ pc' = "poll" /\ kind' = "svc" /\ l' = l + 1 /\ dead' = {}
 TByte == /\ e.op = "b" /\ Byte(e.b) /\ UNCHANGED <<adsrVars, pc>> /\ kind' = "midi"
-         /\ Advance(IF e.g # gate' THEN {"C04:gate"} ELSE {})
+         /\ Advance(IF e.g # gate' THEN {<<"C04", "gate">>} ELSE {})
 TPoll == /\ e.op = "poll" /\ Poll
-         /\ Advance(   (IF e.r # rise THEN {"C05:rising"} ELSE {})
-                  \cup (IF e.f # fall THEN {"C05:falling"} ELSE {})
-                  \cup (IF PhaseName(e.ph) # phase' THEN {"C02:phase-order", "C05:envelope-not-driven"} ELSE {}))
+         /\ Advance(   (IF e.r # rise THEN {<<"C05", "rising">>} ELSE {})
+                  \cup (IF e.f # fall THEN {<<"C05", "falling">>} ELSE {})
+                  \cup (IF PhaseName(e.ph) # phase' THEN {<<"C02", "phase-order">>, <<"C05", "envelope-not-driven">>} ELSE {}))
 TTick == /\ e.op = "tk" /\ Service
-         /\ Advance(   (IF PhaseName(e.ph) # phase' THEN {"C02:phase-order"} ELSE {})
-                  \cup (IF phase' = "rest" /\ e.k # 0 THEN {"C01:rest-level"} ELSE {})
-                  \cup (IF ~Inv_agree' THEN {"C05:gate-and-envelope-disagree"} ELSE {}))
-TPanic == e.op = "panic" /\ UNCHANGED voiceAll /\ Advance({"C17:panic"})
+         /\ Advance(   (IF PhaseName(e.ph) # phase' THEN {<<"C02", "phase-order">>} ELSE {})
+                  \cup (IF phase' = "rest" /\ e.k # 0 THEN {<<"C01", "rest-level">>} ELSE {})
+                  \cup (IF ~Inv_agree' THEN {<<"C05", "gate-and-envelope-disagree">>} ELSE {}))
+TPanic == e.op = "panic" /\ UNCHANGED voiceAll /\ Advance({<<"C17", "panic">>})
 
 TNext == l <= NRec /\ (TMeta \/ TNew \/ TByte \/ TPoll \/ TTick \/ TPanic)
-TInit == VInit(0, M) /\ l = 1 /\ dead = FALSE /\ FlagInit
+TInit == VInit(0, M) /\ l = 1 /\ dead = {} /\ FlagInit
 TSpec == TInit /\ [][TNext]_tvars
 =============================================================================
